@@ -475,6 +475,9 @@ def method(E, st, recv: V, name, args, kw, n):
         if name == "startswith" and k == "bytes":
             yield st, vbool(z3.PrefixOf(args[0].t, recv.t))
             return
+        if name == "encode":
+            # may fail: unknown codec (LookupError) or unencodable text (UnicodeEncodeError)
+            yield st.fork(), Raised(Exc(None, origin="str.encode line %d" % line, is_exception=True))
         yield st, str_method(st, recv, name, args)
         return
     raise Unsupported("method %s on %s (line %d)" % (name, recv.ty, line))
